@@ -138,11 +138,11 @@ def huf_weights(rng, nsym, max_log=11):
     return bytes(hdr), ws
 
 
-def build(rng, content, dict_id=None, of_zero=(), of_force=(), ll_zero=(), ml_zero=(), reps=None, logs=None, huf_syms=None):
+def build(rng, content, dict_id=None, of_zero=(), of_force=(), ll_zero=(), ml_zero=(), reps=None, logs=None, huf_syms=None, of_max=None):
     dict_id = dict_id if dict_id is not None else rng.randint(32768, (1 << 31) - 1)
     logs = logs or (rng.randint(5, OffFSELog), rng.randint(5, MLFSELog), rng.randint(5, LLFSELog))
     hdr, _ = huf_weights(rng, huf_syms or rng.choice([2, 3, 40, 96, 128, 129]))
-    of_max = rng.choice([MaxOff, MaxOff, 20, 24, 28])
+    of_max = of_max if of_max is not None else rng.choice([MaxOff, MaxOff, 20, 24, 28])
     of_max = max([of_max] + list(of_force))
     ofn = rand_norm(rng, of_max, logs[0], zeros=of_zero, force=of_force)
     ml_max = rng.choice([MaxML, MaxML, MaxML, 30])
@@ -157,3 +157,11 @@ def build(rng, content, dict_id=None, of_zero=(), of_force=(), ll_zero=(), ml_ze
         out += (r & 0xFFFFFFFF).to_bytes(4, "little")
     out += content
     return bytes(out), dict(id=dict_id, ofn=ofn, mln=mln, lln=lln, reps=reps, logs=logs, content=n)
+
+
+def build_exact_of(rng, content, **kw):
+    """dictionary whose offset-code table describes exactly the codes 0..highbit(len(content)+128 KiB), all with a non-zero
+    probability: the compressor may mark it directly reusable ('valid') - for the first block only, later blocks can need larger codes"""
+    m = (len(content) + 131072).bit_length() - 1
+    logs = kw.pop("logs", None) or (rng.randint(6, OffFSELog), rng.randint(5, MLFSELog), rng.randint(5, LLFSELog))
+    return build(rng, content, of_max=m, of_force=tuple(range(m + 1)), logs=logs, **kw)
